@@ -31,19 +31,22 @@ def base_env(tmp):
     return {"QA_TLA_LIBRARY": tmp}
 
 
-def judge(module, observations, cfg=None, env=None, timeout=900, workers=8, chunk=60000):
-    """Run specs/<module>.tla over the observations. Returns Verdict."""
+def judge(module, observations, cfg=None, env=None, timeout=900, workers=2, chunk=20000, parallel=6):
+    """Run specs/<module>.tla over the observations (several TLC processes side by side, one chunk
+    each). Returns Verdict."""
+    from concurrent.futures import ThreadPoolExecutor
     v = Verdict()
     obs = list(observations)
     v.n = len(obs)
+    v.generated = v.distinct = 0
     if not obs:
         return v
     tmp = tempfile.mkdtemp(prefix="qa_obs_")
     try:
-        e = base_env(tmp)
+        e0 = base_env(tmp)
         if env:
-            e.update(env)
-        gen = dist = 0
+            e0.update(env)
+        jobs = []
         for c0 in range(0, len(obs), chunk):
             part = obs[c0:c0 + chunk]
             path = os.path.join(tmp, "obs_%d.ndjson" % c0)
@@ -52,22 +55,30 @@ def judge(module, observations, cfg=None, env=None, timeout=900, workers=8, chun
                     o = dict(o)
                     o["id"] = c0 + i + 1
                     fd.write(json.dumps(o, ensure_ascii=True) + "\n")
+            jobs.append((c0, len(part), path))
+
+        def one(job):
+            c0, n, path = job
+            e = dict(e0)
             e["QA_OBS_FILE"] = path
-            r = tlc.run_tlc(module, cfg=cfg, env=e, workers=workers, timeout=timeout)
+            return job, tlc.run_tlc(module, cfg=cfg, env=e, workers=workers, timeout=timeout, heap="3g")
+
+        with ThreadPoolExecutor(max_workers=parallel) as ex:
+            results = list(ex.map(one, jobs))
+        for (c0, n, path), r in results:
             v.tlc = r
-            if r.timed_out or not r.ok or r.distinct != len(part):
+            if r.timed_out or not r.ok or r.distinct != n:
                 raise MachineryError("TLC did not judge the batch for %s: ok=%s distinct=%d n=%d timed_out=%s\n%s"
-                                     % (module, r.ok, r.distinct, len(part), r.timed_out,
+                                     % (module, r.ok, r.distinct, n, r.timed_out,
                                         "\n".join(r.errors[:3]) or r.stdout[-1500:]))
-            gen += r.generated
-            dist += r.distinct
+            v.generated += r.generated
+            v.distinct += r.distinct
             for ln in r.prints:
                 t = tlc.parse_tuple(ln)
                 if t and t[0] == "REJECT":
                     oid = t[1]
                     v.rejects.append({"id": oid, "clause": t[2] if len(t) > 2 else "?",
                                       "detail": t[3] if len(t) > 3 else "", "obs": obs[oid - 1]})
-        v.generated, v.distinct = gen, dist
     finally:
         shutil.rmtree(tmp, ignore_errors=True)
     return v
